@@ -766,7 +766,8 @@ class Consumer : public ASTConsumer {
                 PresumedLoc P = SM.getPresumedLoc(SM.getExpansionLoc(VD->getLocation()));
                 globals += "{\"n\":" + jstr(VD->getNameAsString()) + ",\"t\":" + std::to_string(Em.typeId(VD->getType())) + ",\"file\":" + jstr(P.isValid() ? P.getFilename() : "") +
                            ",\"line\":" + std::to_string(P.isValid() ? P.getLine() : 0) + ",\"static\":" + (VD->getStorageClass() == SC_Static ? "true" : "false") +
-                           ",\"const\":" + (VD->getType().isConstQualified() ? "true" : "false");
+                           ",\"const\":" + (VD->getType().isConstQualified() ? "true" : "false") +
+                           ",\"tls\":" + (VD->getTLSKind() != VarDecl::TLS_None ? "true" : "false");
                 if (VD->getInit() && !VD->getInit()->isValueDependent()) {
                     APValue Val;
                     llvm::SmallVector<PartialDiagnosticAt, 8> Notes;
